@@ -13,6 +13,7 @@ PROP = {
              "statement model. Non-trivial: a roll-over happens while >=1 enqueuer is in the hand-off gap, or >=2 waiters compete for fewer free slots than "
              "waiters at a roll-over; distinct = canonical JSON of configuration + schedule"),
     "assumptions": [
+        "when a waiter's time-to-live and the window processor's timer are due at the same instant, one case in three lets the two overlap: the waiter is kept between its timer and the queue lock (inside the clock reading of its trace line - the harness owns the clock) while the processor's pass runs. The outcome must be that of one of the two orders: pass first (the waiter is released if its turn has come, else it expires) or time-to-live first (it expires, the pass hands its slots to the others); the model goes on from the order that was observed",
         "plugin unit: in one case of three the priority groups are called by free-text header values (gold / 'eu,us' / 'team a; q=1, b') instead of p0-p2: a request belongs to the group whose configured name equals its header value",
         "backlog unit: the queue gets the zero-value logger or a debug / trace level logger whose output is discarded, and in half of the cases the requests_in_queue gauge is read (Counts) before every roll-over",
         "unit TestLargeBacklogOrder: 20-390 waiters (priorities 1-5, half of them with a 2.5 s time-to-live, the rest one hour) arriving 1 ms apart in two batches on a queue of 1-3 per 10 s (in one case of four 40-150 per 10 s: a backlog of hundreds is drained within a few windows); the clock moves to 1 ms before each roll-over first, so that every waiter whose time-to-live ended has taken notice, then across it; each window must release exactly its quota: the best (priority, arrival) waiters alive",
